@@ -51,8 +51,19 @@ Extend(name, b, owns, optc) ==
                                           v \in Range(MergeVars(VarsOfSeq(ba.bargs), g))}, op \in optc }
                   : g \in ba.gens } : ba \in Bargs(Params(prog, b)) }
 
-Init == prog \in {<<d>> : d \in Level1}
-Next == /\ Len(prog) < MaxLevel /\ ProgOK(prog, Len(prog))
+(* two pane bases: class D(A, M) and class D(M, A) over a non-generic A and a small mixin M (terminal programs) *)
+MixinOwn == { <<F("s_x", TFloat, Def(MkFloat(<<3, 2>>)), "T"), F("s_v", TStr, Def(MkStr("s_a")), "F")>>,
+              <<F("s_w", TInt, Def(MkInt(0)), "F")>>, <<F("s_v", TStr, NoDef, "F")>> }
+MixinOpts == { AllUnset, [AllUnset EXCEPT !.extra = "T"], [AllUnset EXCEPT !.kw_only = "T"] }
+MixProgs ==
+  { << a,
+       [name |-> "M", base |-> 0, bargs |-> <<>>, gen |-> <<>>, own |-> mo, marker |-> Len(mo), opts |-> mp],
+       [name |-> "D", base |-> ord[1], mix |-> ord[2], bargs |-> <<>>, gen |-> <<>>, own |-> down, marker |-> Len(down), opts |-> AllUnset] >> :
+      a \in {d \in Level1 : d.gen = <<>>}, mo \in MixinOwn, mp \in MixinOpts, ord \in {<<1, 2>>, <<2, 1>>},
+      down \in {<<>>, <<F("s_z", TInt, Def(MkInt(7)), "F")>>} }
+
+Init == prog \in {<<d>> : d \in Level1} \cup MixProgs
+Next == /\ Len(prog) < MaxLevel /\ ProgOK(prog, Len(prog)) /\ (IF Len(prog) < 2 THEN TRUE ELSE prog[2].name # "M")
         /\ \E d \in (IF Len(prog) = 1 THEN Extend("B", 1, Own2, OptChoices2)
                      ELSE Extend("C", 2, Own3, IF Rich THEN OptChoices2 ELSE {AllUnset})) :
               prog' = Append(prog, d)
@@ -68,7 +79,7 @@ NamesUnique == OKProg => LET fs == EffSpecs(prog, Last, <<>>) IN \A a, b \in DOM
 SelfSubscription == OKProg => LET ps == Params(prog, Last) IN
                       EffSpecs(prog, Last, [j \in DOMAIN ps |-> TV(ps[j])]) = EffSpecs(prog, Last, <<>>)
 (* every inherited field is still there, at its original place among the inherited ones *)
-InheritedKept == (OKProg /\ prog[Last].base # 0) =>
+InheritedKept == (OKProg /\ prog[Last].base # 0 /\ Mix(prog[Last]) = 0) =>
    LET b == RawSpecs(prog, prog[Last].base)  c == RawSpecs(prog, Last) IN
    Len(c) >= Len(b) /\ \A j \in DOMAIN b : c[j].n = b[j].n
 ParamsOnce == LET ps == Params(prog, Last) IN \A a, b \in DOMAIN ps : a # b => ps[a] # ps[b]
